@@ -52,7 +52,9 @@ func genC06(t *rapid.T) hx.SessionCase {
 	}
 	// links that lead back: to the directory itself, to its parent, to an ancestor further up (cycles for anything
 	// that follows links while walking)
+	hasBack := false
 	if cyc := rapid.IntRange(0, 5).Draw(t, "cyclic-links"); cyc == 0 {
+		hasBack = true
 		var ds []*hx.Node
 		var depth []int
 		tree.Walk(func(rel string, n *hx.Node) {
@@ -140,6 +142,35 @@ func genC06(t *rapid.T) hx.SessionCase {
 			reqs = append(reqs, hx.Req{Op: "READ_DIR"}, hx.Req{Op: "READ_DIR"}, hx.Req{Op: "READ_ENTRY"})
 		}
 	}
+	// the tree changes behind the server between two opens of one path on this connection: the directory that is held
+	// open is replaced by another directory, by a file, or removed - the second open must see what is there now
+	// (not in trees with links leading upwards: moved to another depth such a link may lead out of the root)
+	if nonRoot := pool.Dirs; len(nonRoot) > 0 && !hasBack && rapid.IntRange(0, 2).Draw(t, "changed-between-opens") == 0 {
+		d := rapid.SampledFrom(nonRoot).Draw(t, "chg-dir")
+		related := func(a, b string) bool { return a == b || strings.HasPrefix(a, b+"/") || strings.HasPrefix(b, a+"/") }
+		var others []string // files and directories only: a relative link moved to another depth may lead out of the root
+		for _, o := range append(append([]string{}, pool.Files...), pool.Dirs...) {
+			if o != "" && !related(o, d) && !strings.HasPrefix(o, "MANY/") {
+				others = append(others, o)
+			}
+		}
+		reqs = append(reqs, hx.Req{Op: "OPEN_DIR", Path: hx.BStr("/" + d)})
+		for i, k := 0, rapid.IntRange(0, 2).Draw(t, "chg-before"); i < k; i++ {
+			reqs = append(reqs, hx.Req{Op: rapid.SampledFrom([]string{"READ_DIR", "READ_ENTRY", "READ_ENTRY2"}).Draw(t, fmt.Sprintf("chg-b%d", i))})
+		}
+		if len(others) > 0 && rapid.IntRange(0, 2).Draw(t, "chg-kind") > 0 {
+			reqs = append(reqs, hx.Req{Op: "LOCAL_SWAP", Path: hx.BStr("/" + d), Raw: hx.BStr("/" + rapid.SampledFrom(others).Draw(t, "chg-other"))})
+		} else {
+			reqs = append(reqs, hx.Req{Op: "LOCAL_REMOVE", Path: hx.BStr("/" + d)})
+		}
+		reqs = append(reqs, hx.Req{Op: "OPEN_DIR", Path: hx.BStr(spell(t, d, "chg-again"))})
+		if rapid.Bool().Draw(t, "chg-bulk") {
+			reqs = append(reqs, hx.Req{Op: "READ_DIR"})
+		}
+		for i := 0; i < 8; i++ {
+			reqs = append(reqs, hx.Req{Op: rapid.SampledFrom([]string{"READ_ENTRY", "READ_ENTRY2"}).Draw(t, fmt.Sprintf("chg-a%d", i))})
+		}
+	}
 	// stat and dir-size of every path of the tree (bounded for the big directory)
 	cnt := 0
 	for _, p := range all {
@@ -188,6 +219,9 @@ func runC06(c hx.SessionCase, st *hx.Stats) error {
 				st.Label("directory with >= 2 entries enumerated entry by entry")
 				st.NT("enum|" + string(r.Op) + "|" + treeKey(curDir))
 			}
+		case "LOCAL_SWAP", "LOCAL_REMOVE":
+			st.Label("open directory replaced or removed behind the server, then opened again")
+			st.NT(r.Op + "|" + string(r.Path) + "|" + string(r.Raw))
 		case "STAT", "DIR_SIZE":
 			if p := strings.Trim(string(r.Path), "/"); p != "" {
 				st.NT(r.Op + "|" + p + "|" + fmt.Sprint(len(c.Reqs)))
